@@ -1,7 +1,8 @@
 (* C08 - Field presence survives encoding and decoding. *)
 From Coq Require Import List ZArith Bool.
 From Pico Require Import Base.Res Base.Mach Wire.Wire Schema.Types Schema.Scalar Schema.Gen Schema.GenProofs Ref.Ref
-  Schema.ScalarProofs Enc.Enc Enc.EncProofs.
+  Schema.ScalarProofs Enc.Enc Enc.EncProofs Schema.Interp.
+From Pico Require Schema.Norm Schema.EncSpec Schema.TEnc Schema.TDec Schema.RoundTrip.
 Import ListNotations.
 Open Scope Z_scope.
 
@@ -27,8 +28,17 @@ Theorem C08_message_presence : forall field fn buf p ok,
   enc_message field fn buf = Ok (if ok then buf ++ spec_ld field p else buf).
 Proof. exact enc_message_spec. Qed.
 
-(* PARTIAL: the decode half (pointer allocated / member selected when the field occurs) and the
-   whole-message statement are decided per run on the presence skeleton. *)
+(* Presence survives the round trip, for whole messages: Unmarshal(Marshal(m)) = m as VALUES OF THE PRESENCE-CARRYING
+   UNIVERSE - VOpt None / VOpt (Some zero), VMsg None / VMsg (Some empty), the selected oneof member (also when it holds
+   the zero value), the number of repeated elements (empty message elements included), always-present sub-messages -
+   by C03's theorem (T_enc + reference round trip + T_dec). The only identifications are the by-design ones of
+   Schema/Norm.v (zero time.Time behind a pointer / in a slice; nil element of a repeated message). *)
+Theorem C08_presence_round_trip : forall s progs fuel idx fs un m,
+  gen_all s = GOk progs -> TEnc.wf_schema_enc s = true -> RoundTrip.rt_applies s = true -> nth_error s idx = Some m ->
+  EncSpec.msg_ok fuel progs idx (Some (fs, un)) = true -> RoundTrip.rt_ok fuel s idx fs un = true ->
+  exists data, pico_marshal fuel progs idx (fs, un) = Ok data /\
+               pico_unmarshal progs idx data (zero_fields s m, []) = (None, (Norm.norm_fields fuel s idx fs, un)).
+Proof. exact RoundTrip.marshal_unmarshal. Qed.
 
 Example C08_nonvacuous : enc_single KString true 2 (VBytes []) [] = [18; 0] /\ spec_ld 3 [] = [26; 0].
 Proof. split; vm_compute; reflexivity. Qed.
@@ -38,3 +48,4 @@ Print Assumptions C08_oneof_always.
 Print Assumptions C08_oneof_enum_always.
 Print Assumptions C08_always_emits.
 Print Assumptions C08_message_presence.
+Print Assumptions C08_presence_round_trip.
